@@ -258,6 +258,25 @@ func (d *Deriv) visit(v ssa.Value, depth int) {
 		for _, b := range d.binds[x] {
 			d.visit(b, depth)
 		}
+		// parameters of anonymous functions: bound at their (static) call
+		// sites in the enclosing functions (go func(a){...}(x)).
+		if fn := x.Parent(); fn != nil && fn.Parent() != nil {
+			idx := -1
+			for i, prm := range fn.Params {
+				if prm == x {
+					idx = i
+				}
+			}
+			for par := fn.Parent(); par != nil && idx >= 0; par = par.Parent() {
+				for _, pf := range WithAnon(par) {
+					AllInstrs(pf, func(in ssa.Instruction) {
+						if c, ok := in.(ssa.CallInstruction); ok && c.Common().StaticCallee() == fn && idx < len(c.Common().Args) {
+							d.visit(c.Common().Args[idx], depth)
+						}
+					})
+				}
+			}
+		}
 		// pointer parameter content written in this function
 		d.visitContent(x, "", depth)
 	case *ssa.FreeVar:
